@@ -64,9 +64,9 @@ NumKind(x, k) ==
 StandaloneKinds == LevelKinds \cup {"LIST", "TABLE", "BOLD", "ITALIC", "LINK", "TEMPLATE", "TEMPLATE_ARG",
                                    "PARSER_FN", "URL", "HTML", "HLINE"}
 LineStartSpecial == {"SP", "NL", "*", "#", ":", ";", "=", "|", "!", "{", "-", "}"}
-ElemOK(c) == IF IsStr(c) THEN c.s # <<>> /\ (\A k \in 1..Len(c.s) : c.s[k] \notin Markup) ELSE c.kind \in StandaloneKinds
 \* a string is checked when it denotes plain text (brackets allowed: that is the protection)
 Markup == {":", "|", "!", "{", "}", "<", ">", "'", "=", "*", "#", ";", "&", "_"}
+ElemOK(c) == IF IsStr(c) THEN c.s # <<>> /\ (\A k \in 1..Len(c.s) : c.s[k] \notin Markup) ELSE c.kind \in StandaloneKinds
 Eligible(x) ==
   IF IsStr(x) THEN x.s # <<>> /\ x.s[1] \notin LineStartSpecial /\ \A k \in 1..Len(x.s) : x.s[k] \notin Markup
   ELSE IF IsNode(x) THEN x.kind \in StandaloneKinds
